@@ -1,3 +1,5 @@
+//go:build !skip_c03
+
 package main
 
 // C03 — a handshake gets a complete certificate covering the requested name, or an error.
